@@ -69,7 +69,7 @@ func restoreTo(st *Stack, from string) ([]byte, error) {
 func init() {
 	Register(&Check{
 		ID: "C03", Level: "exploration", Tech: "deterministic simulation over the configuration matrix: real pipeline end to end with simulated short-read sources, both write caches, restart (reopen) before reading, simulated clock for signature times",
-		Rule:      "cell = (compression x level x encryption x signature x record size x write cache) drawn per run from the full 8x3x3x3x7x2 matrix; per cell 3 contents from size classes {0,1,511,512,513,record-1,record,record+1,several records} x {zeros,text,random}; written through the filesystem (write cache) and through a batched Operations.Archive with short-read sources, one content replaced by an update, optionally one more replaced by the EMPTY content through the write buffer (O_TRUNC reopen, Truncate(0), empty Write); after a reopen every content is read back through File.Read, Operations.Restore and recovery.Fetch by position and Stat.Size must equal the length; in half of the runs every non-empty content is read again through File.Read and Operations.Restore with one injected drive read error at a seeded position (a read may fail, it never ends cleanly with other bytes); plus non-regular (tape) codec parameters at the compression/tar-writer level; non-trivial = a non-plain cell with at least one non-empty content; distinct by cell",
+		Rule:      "cell = (compression x level x encryption x signature x record size x write cache) drawn per run from the full 8x3x3x3x7x2 matrix; per cell 3 contents from size classes {0,1,511,512,513,record-1,record,record+1,several records} x {zeros,text,random}; written through the filesystem (write cache) and through a batched Operations.Archive with short-read sources, one content replaced by an update, optionally one more replaced by the EMPTY content through the write buffer (O_TRUNC reopen, Truncate(0), empty Write); after a reopen every content is read back through File.Read, Operations.Restore and recovery.Fetch by position and Stat.Size must equal the length; in half of the runs every non-empty content is read again through File.Read and Operations.Restore with one injected drive read error at a seeded position (a read may fail, it never ends cleanly with other bytes); plus (15 % of the runs) single-fault enumeration over a whole-file history at the drive / index / cache seams, judged on contents only: afterwards every file reads as one of the contents ever handed to the filesystem, or fails; plus non-regular (tape) codec parameters at the compression/tar-writer level; non-trivial = a non-plain cell with at least one non-empty content; distinct by cell",
 		QuickRuns: 1600, QuickSecs: 70, ThoroughRuns: 12000, ThoroughSecs: 1700,
 		Assumptions: []string{"the tape drive itself is not simulated: DriveIsRegular=false is exercised only at the codec / tar-writer parameter level", "configuration x input sampling riding on the simulator for clock, randomness, short reads, restart and crash supervision"},
 		Gen: func(r *rand.Rand, tier string, relax Relax) *Case {
@@ -78,6 +78,12 @@ func init() {
 			c.P["sleep"] = int64([]int{0, 1, 3600, 86400 * 400, 86400 * 365 * 20}[r.IntN(5)])
 			if r.Float64() < 0.5 {
 				c.P["rfault"] = int64(1 + r.IntN(1000))
+			}
+			if r.Float64() < 0.15 {
+				// fault mode: single-fault enumeration over a whole-file history, judged on contents only
+				c.S["mode"] = "faults"
+				c.P, c.Ops = map[string]int64{"enumerate": 1}, genWholeFileHistory(r, c.Cfg.RecordSize)
+				return c
 			}
 			c.P["emptyvia"] = int64(r.IntN(6)) // 1..3: one content is replaced by the empty content through the write buffer
 			for i, d := range contentClasses(r, c.Cfg.RecordSize) {
@@ -89,7 +95,153 @@ func init() {
 	})
 }
 
+// genWholeFileHistory: a short history in which file contents are only ever written as a
+// whole (writefile, batched archive), so that every readable content is attributable.
+func genWholeFileHistory(r *rand.Rand, rs int) []Op {
+	tag := uint32(0x300)
+	names := []string{"/a", "/b", "/d/x", "/d/y"}
+	pick := func() string { return names[r.IntN(len(names))] }
+	data := func() *Data {
+		tag++
+		return &Data{Len: []int{0, 1, 700, 2000, rs*512 + 1}[r.IntN(5)], Kind: []string{"text", "rand"}[r.IntN(2)], Tag: tag}
+	}
+	ops := []Op{{K: "mkdir", P: "/d", M: 0o755}, {K: "writefile", P: "/a", D: data()}}
+	if r.IntN(2) == 0 {
+		ops = append(ops, Op{K: "writefile", P: "/d/x", D: data()})
+	}
+	for i, n := 0, 1+r.IntN(4); i < n; i++ {
+		switch r.IntN(10) {
+		case 0, 1, 2, 3:
+			ops = append(ops, Op{K: "writefile", P: pick(), D: data()})
+		case 4:
+			ops = append(ops, Op{K: "rename", P: pick(), Q: pick()})
+		case 5:
+			ops = append(ops, Op{K: "remove", P: pick()})
+		case 6:
+			ops = append(ops, Op{K: "chmod", P: pick(), M: 0o600})
+		case 7:
+			ops = append(ops, Op{K: "readfile", P: pick()})
+		case 8:
+			tag += 10
+			ops = append(ops, Op{K: "archive", P: "/", N: 1 + r.IntN(3), D: &Data{Len: 1 + r.IntN(3000), Kind: "text", Tag: tag}})
+		case 9:
+			ops = append(ops, Op{K: "reopen", N: r.IntN(2)})
+		}
+	}
+	return ops
+}
+
+// evalC03Faults: every single fault point of a whole-file history (sampled down), then with
+// injection switched off every file must read as one of the contents that were ever handed to
+// the filesystem (or fail): a fault may cost a write, it never produces other bytes.
+func evalC03Faults(t *testing.T, c *Case, st *Stats, relax Relax) *Violation {
+	allowed := map[string]string{sumOf(nil): "empty"}
+	for _, op := range c.Ops {
+		switch op.K {
+		case "writefile":
+			allowed[sumOf(op.D.Bytes())] = op.String()
+		case "archive":
+			for _, m := range archiveMembers(op) {
+				allowed[sumOf(m.D.Bytes())] = m.String()
+			}
+		}
+	}
+	var plan []Fault
+	post := func(stk *Stack, w *World) *Violation {
+		if w.Dev.InitFailed {
+			// an instance whose Initialize returned an error promises nothing
+			st.Add("not_judged_after_failed_initialize", 1)
+			return nil
+		}
+		if w.Dev.PartialAppend && relax["torn-record-append"] {
+			st.Add("masked_by_KF8", 1)
+			return nil
+		}
+		tree, _ := Observe(stk.FS, "/", ObsOpts{})
+		var paths []string
+		for p := range tree {
+			paths = append(paths, p)
+		}
+		sort.Strings(paths)
+		for _, p := range paths {
+			n := tree[p]
+			if n.Kind != "file" || n.Err != "" || n.Sum == "" {
+				continue
+			}
+			if _, ok := allowed[n.Sum]; !ok {
+				return &Violation{Prop: c.Prop, Oracle: "content-never-written", Detail: fmt.Sprintf("cfg=%s faults=%v: after the history %q reads %s without error; no call ever wrote these bytes (contents written: %d)\n%s", c.Cfg, plan, p, n.Sum, len(allowed)-1, opsString(c.Ops))}
+			}
+			st.Add("contents_attributed_after_fault", 1)
+		}
+		return nil
+	}
+	if c.Param("enumerate", 1) == 0 {
+		plan = c.Faults
+		v, _ := runFaultedPost(t, c, st, relax, plan, nil, post)
+		if v != nil && v.Prop == c.Prop && v.Oracle != "content-never-written" {
+			return nil // liveness under faults is C10's business
+		}
+		return v
+	}
+	var snaps []map[string]int
+	if v, _ := runFaultedPost(t, c, st, relax, nil, &snaps, post); v != nil {
+		if v.Oracle == "content-never-written" {
+			c.P["enumerate"] = 0
+			return v
+		}
+		return nil
+	}
+	var points []Fault
+	prev := map[string]int{}
+	for _, sn := range snaps {
+		for _, seam := range []string{"drive.write", "drive.read", "index.any", "cache.write", "cache.read", "drive.openfile", "drive.open"} {
+			hi := sn[seam]
+			if asyncCodec(c.Cfg) && (seam == "drive.read" || seam == "drive.write") && hi > prev[seam]+12 {
+				hi = prev[seam] + 12
+			}
+			for k := prev[seam] + 1; k <= hi; k++ {
+				points = append(points, Fault{Seam: seam, K: k})
+				if seam == "drive.write" {
+					points = append(points, Fault{Seam: seam, K: k, Arg: 1 + (k*37)%400})
+				}
+			}
+		}
+		prev = sn
+	}
+	max := 60
+	if c.Tier == "thorough" {
+		max = 400
+	}
+	if len(points) > max {
+		step := float64(len(points)) / float64(max)
+		var sel []Fault
+		for i := 0; i < max; i++ {
+			sel = append(sel, points[int(float64(i)*step)])
+		}
+		points = sel
+	}
+	for _, f := range points {
+		plan = []Fault{f}
+		v, dev := runFaultedPost(t, c, st, relax, plan, nil, post)
+		st.Add("faulted_history_runs", 1)
+		if dev != nil {
+			for s, n := range dev.Fired {
+				st.Add("fired_"+s, int64(n))
+			}
+		}
+		if v != nil && v.Oracle == "content-never-written" {
+			c.Faults, c.P["enumerate"] = plan, 0
+			return v
+		}
+	}
+	st.Nontrivial("faults|" + c.Cfg.String() + "|" + opKinds(c.Ops))
+	return nil
+}
+
 func evalC03(t *testing.T, c *Case, st *Stats, relax Relax) *Violation {
+	if c.S["mode"] == "faults" {
+		return evalC03Faults(t, c, st, relax)
+	}
 	return RunSeq(t, c, st, relax, seqOpts{}, func(x *SeqCtx) *Violation {
 		mk := func(oracle, detail string) *Violation {
 			return &Violation{Prop: c.Prop, Oracle: oracle, Detail: fmt.Sprintf("cfg=%s: %s", c.Cfg, detail)}
